@@ -162,6 +162,31 @@ theorem symmetric_ops_roundtrip (h : List (Nat × List Nat)) (st ld : List Atom)
   rw [hsh]
   exact vals_roundtrip baseS baseL B flds hB hbase hok
 
+/-- References to datatype validators: storeDV writes a validator BY NAME only if it IS the built-in registered under its
+local name (identity test, as extracted from the source), and then loadDV returns that same shared object; every other
+validator — for EVERY state of the registry, including user types whose local name equals a built-in's ({urn:t}token) —
+comes back as its own copy, never as the built-in of the same name. -/
+theorem dv_reference_identity :
+    storeDVBuiltinTest = 1 ∧
+    ∀ (reg : Registry) (dv : Option DV), loadDV reg (storeDV storeDVBuiltinTest reg dv) = dvExpected reg dv := by
+  refine ⟨by decide, ?_⟩
+  intro reg dv
+  have h1 : storeDVBuiltinTest = 1 := by decide
+  rw [h1]
+  cases dv with
+  | none => rfl
+  | some d =>
+    simp only [storeDV, dvExpected]
+    by_cases h : regGet reg d.localName = some d.id
+    · simp [h, loadDV]
+    · simp [h, loadDV]
+
+/-- … whereas deciding by name ("a built-in with this local name exists") is wrong as soon as a user type is named like a
+built-in: the user type is restored as the built-in. -/
+theorem dv_name_test_unsound :
+    ∃ (reg : Registry) (dv : DV), loadDV reg (storeDV 2 reg (some dv)) ≠ dvExpected reg (some dv) :=
+  ⟨[(5, 1)], ⟨7, 5, 9⟩, by decide⟩
+
 -- ------------------------------------------------------------------ object graphs
 /-- `write(XSerializable*)` / `read(XProtoType*)` on ARBITRARY object graphs — DAGs with sharing AND cycles (an object is
 put into the store / load pool before its `serialize` runs): if the storing engine terminates on the heap (`storeRun … = some`;
@@ -199,6 +224,8 @@ theorem pool_index_injective (sch : Schema) (h : Heap) (fuel root baseS B : Nat)
   cases hk; rfl
 
 -- ------------------------------------------------------------------ non-vacuity
+example : loadDV [(5, 1)] (storeDV storeDVBuiltinTest [(5, 1)] (some ⟨7, 5, 9⟩)) = .copy ⟨7, 5, 9⟩ ∧
+    loadDV [(5, 1)] (storeDV storeDVBuiltinTest [(5, 1)] (some ⟨1, 5, 0⟩)) = .shared 1 := by decide
 /-- two classes; object 1 points to itself (cycle) and to 2; object 2 points back to 1 twice (sharing) and to 3 -/
 def exSchema : Schema := fun c =>
   if c == 1 then ⟨[72, 120, 65], [.val (.prim .int), .val .str, .ptr 1, .ptr 2]⟩
